@@ -237,8 +237,10 @@ TEXT = {
                  "keep-alive predicate P20 (C20_trace): each tick writes exactly one KeepAlive unless KEEP_ALIVE_LIMIT ticks have passed since the last "
                  "non-keep-alive frame, in which case that tick closes the task; nothing is emitted after the end. Declarative corollaries: closed at tick "
                  "LIMIT+1 <= 3 of silence (T1), never closed while a real message arrives per interval (T2), one KeepAlive per surviving tick (T3); interval = 120 s "
-                 "from the generated constant. Tied to the real task under tokio's paused clock; P20 is also evaluated on the implementation's trace.",
-        "note": KERNEL + "release of the peer record and reservation on KillReq is the kill step of the manager model (C12). Assumed: tokio interval semantics; "
+                 "from the generated constant. Release, kernel-checked for the WHOLE CLIENT (T5, Props/C20Whole: closed loop of any number of connection tasks and the manager): after the closing tick of a silent "
+                 "connection the task has ended, the manager has no record of it, and no piece stays Reserved unless another live, unchoked connection is fetching it. "
+                 "Tied to the real task under tokio's paused clock; P20 is also evaluated on the implementation's trace.",
+        "note": KERNEL + "release of the peer record and reservation on KillReq is the kill step of the manager model (C12), composed with the task model in the closed loop (T4, T5). Assumed: tokio interval semantics; "
                 "a blocked socket write starves the timer (runtime behaviour outside the model).",
         "technique": "Lean 4 proof (trace predicate proved for all scripts by induction, via frame-preservation lemmas) + differential correspondence under a virtual clock",
     },
